@@ -21,7 +21,7 @@ THEOREMS = ["rw_identity", "rw_items", "rw_total", "rw_significant", "rw_hints",
             "shortChars_decode", "shortnames_inj", "shortName_class", "pkg_local_disjoint", "short_not_reserved",
             "do_is_a_candidate", "names_distinct", "names_fresh", "firstFree_total", "newVariable_total",
             "ident_needsSpace", "ws_between_idents_kept", "old_needsSpace_counterexample", "old_varptr_counterexample",
-            "varPtrName_cached"]
+            "varPtrName_cached", "wrapper_tail_stripped", "junction_examples"]
 
 KW = ["abstract", "arguments", "await", "async", "boolean", "break", "byte", "case", "catch", "char", "class", "const",
       "continue", "debugger", "default", "delete", "do", "double", "else", "enum", "eval", "export", "extends", "false",
@@ -783,6 +783,81 @@ def prog_generic_ptr(rng):
     return "\n".join(L) + "\n"
 
 
+LEGAL_LINE = ["//! %s v1.2.0 | (c) ACME | MIT license", "// @license %s MIT", "// @preserve %s keep me", "//! %s"]
+LEGAL_BLOCK = ["/*! %s (c) ACME */", "/** @license %s\n * MIT\n */", "/* @preserve %s */"]
+
+
+def incjs_file(rng, name, k):
+    """One .inc.js file: sets $global.<name> = {version, f, g, re, tpl}; exercises the JavaScript-side minifier (esbuild):
+    line comments, legal comments (line and block style, at the top / in the middle / as the LAST line), template and
+    regex literals, strings containing `//` and `/*`, statements ended by line breaks only, a last line without a
+    line break. Returns (source, what the Go side must read back)."""
+    parts = []
+    top = rng.choice(["legal-line", "legal-block", "plain", "none"])
+    if top == "legal-line":
+        parts.append(rng.choice(LEGAL_LINE) % name)
+    elif top == "legal-block":
+        parts.append(rng.choice(LEGAL_BLOCK) % name)
+    elif top == "plain":
+        parts.append("// %s: an ordinary comment, dropped by the minifier" % name)
+    parts.append("/* block comment with // inside and a \" quote */")
+    parts.append("var base%d = %d" % (k, k))                       # no semicolon: ended by the line break
+    parts.append("let url%d = \"http://example.org/*not-a-comment*/?q=//x\"" % k)
+    parts.append("const re%d = /\\/\\/[a-z]+\"?/g  // a regex literal with slashes and a quote" % k)
+    if rng.random() < 0.5:
+        parts.append(rng.choice(LEGAL_LINE) % (name + "-mid"))
+    parts.append("function tag%d(s) { return `<${s}|%s // not a comment /* nor this */ ${base%d + 1}>` }" % (k, name, k))
+    parts.append("$global.%s = {" % name)
+    parts.append("  version: \"1.%d.0\"," % k)
+    parts.append("  f: function(x, y) {")
+    parts.append("    var r = x * x + y * y")
+    parts.append("    return r + base%d  // trailing comment" % k)
+    parts.append("  },")
+    parts.append("  g: function(s) { return \"[\" + s + \"]\" + tag%d(s.length) },"  % k)
+    parts.append("  re: function(s) { re%d.lastIndex = 0; return re%d.test(s) }," % (k, k))
+    parts.append("  url: url%d," % k)
+    parts.append("}")
+    end = rng.choice(["legal-line", "legal-line", "plain-line", "block", "stmt"])
+    if end == "legal-line":
+        parts.append(rng.choice(LEGAL_LINE) % (name + "-end"))
+    elif end == "plain-line":
+        parts.append("// the end of %s" % name)
+    elif end == "block":
+        parts.append(rng.choice(LEGAL_BLOCK) % (name + "-end"))
+    else:
+        parts.append("$global.%s.extra = 1" % name)
+    src = "\n".join(parts)
+    if rng.random() < 0.5:
+        src += "\n"                                              # otherwise: last line without a line break
+    return src
+
+
+def prog_incjs(rng):
+    nfiles = rng.choice([1, 2, 3])
+    files = {}
+    L = ["package main", "", "import \"github.com/gopherjs/gopherjs/js\"", "", "func main() {"]
+    expect = []
+    for k in range(nfiles):
+        name = "gvlib%d%s" % (k, rng.choice(["", "x", "_y"]))
+        files["%s%d.inc.js" % (rng.choice(["a", "lib", "zz"]), k)] = incjs_file(rng, name, k)
+        x, y = rng.randrange(1, 9), rng.randrange(1, 9)
+        s = rng.choice(["a - -b // not a comment", "x /* y */ z", "q\\\"r", "plain"])
+        L.append("\t{")
+        L.append("\t\tlib := js.Global.Get(%s)" % goq(name))
+        L.append("\t\tprintln(lib.Get(\"version\").String(), lib.Call(\"f\", %d, %d).Int())" % (x, y))
+        L.append("\t\tprintln(lib.Call(\"g\", %s).String())" % goq(s))
+        L.append("\t\tprintln(lib.Call(\"re\", \"see //abc\").Bool(), lib.Call(\"re\", \"no slashes\").Bool(), lib.Get(\"url\").String())")
+        L.append("\t}")
+        expect.append("1.%d.0 %d" % (k, x * x + y * y + k))
+        expect.append("[%s]<%d|%s // not a comment /* nor this */ %d>" % (s, len(s), name, k + 1))
+        expect.append("true false http://example.org/*not-a-comment*/?q=//x")
+    L.append("\tprintln(\"done\")")
+    L.append("}")
+    expect.append("done")
+    files["main.go"] = "\n".join(L) + "\n"
+    return files, expect
+
+
 WITNESS_CONSOLE = """package main
 
 func main() {
@@ -811,6 +886,10 @@ def gen_programs(rng, tier):
         add("nonascii", prog_nonascii(rng))
     for _ in range(2 if tier == "quick" else 8):
         add("genericptr", prog_generic_ptr(rng))
+    for _ in range(4 if tier == "quick" else 24):
+        files, expect = prog_incjs(rng)
+        jobs.append({"id": "incjs%d" % len(jobs), "files": files, "variants": ["plain", "minify"], "native": False,
+                     "timeout": 30, "kind": "incjs", "expect": expect, "keep_js": True})
     for e in (["exit", "panic", "nilmap", "index"] if tier == "quick" else ["exit", "panic", "nilmap", "index"] * 3):
         add("closures-" + e, prog_closures(rng, e))
     return jobs
@@ -822,7 +901,7 @@ def gen_programs(rng, tier):
 
 def run_programs(jobs):
     """compile + run; a run that hit the wall-clock limit (loaded machine) is repeated alone with a longer limit"""
-    clean = [{k: v for k, v in j.items() if k != "kind"} for j in jobs]
+    clean = [{k: v for k, v in j.items() if k not in ("kind", "expect")} for j in jobs]
     results = progs.run_jobs(clean)
     for attempt in range(2):
         redo = [i for i, r in enumerate(results) if any(v.get("class") == "timeout" for v in r["runs"].values())]
@@ -832,6 +911,57 @@ def run_programs(jobs):
         for i, r in zip(redo, again):
             results[i] = r
     return results
+
+
+def node_check(js):
+    """`node --check` of a generated script; returns '' or the first lines of the syntax error"""
+    import os, subprocess, tempfile
+    if not js:
+        return "no script"
+    d = tempfile.mkdtemp(prefix="gvc16n-")
+    try:
+        f = os.path.join(d, "out.js")
+        open(f, "w").write(js)
+        p = subprocess.run(["node", "--check", f], capture_output=True, text=True, timeout=120)
+        return "" if p.returncode == 0 else (p.stderr.strip().split("\n")[-1] or "syntax error")
+    finally:
+        shutil.rmtree(d, ignore_errors=True)
+
+
+def check_incjs_segments(chk, jobs):
+    """Real WritePkgCode segments around every .inc.js file: the generated wrapper strings must be GenWF/SafeAdjacent on
+    their own, removeWhitespace of them = the model, and the junction raw-JavaScript ++ stripped-tail must be safe."""
+    p = C.run_gvh(["incjs"], [json.dumps({"id": j["id"], "files": j["files"]}) for j in jobs], name="gvh_c16")
+    if p.returncode != 0:
+        raise RuntimeError("gvh_c16 incjs failed: " + p.stderr[-2000:])
+    n = 0
+    for ln in p.stdout.split("\n"):
+        if not ln.strip():
+            continue
+        d = json.loads(ln)
+        if d.get("err"):
+            raise RuntimeError("gvh_c16 incjs: %s: %s" % (d["id"], d["err"][:500]))
+        for sg in d["segs"]:
+            n += 1
+            head_p, raw_p, tail_p = sg["plain"]
+            head_m, raw_m, tail_m = sg["min"]
+            ops = ["rw x " + head_p, "rw x " + tail_p]
+            model = C.run_driver("C16", ops)
+            chk.compare("incjs-wrapper", ops, [head_m, tail_m], model, kind=lambda o, a: "incjs:wrapper")
+            wf = C.run_driver("C16", ["rw wf " + head_p, "rw wf " + tail_p, "rw junction %s %s" % (raw_m, tail_p)])
+            for w, what in ((wf[0], "head"), (wf[1], "tail")):
+                f = wf_fields(w)
+                if not (f.get("parse") == "1" and f.get("tail") == "1" and f.get("safe") == "1"):
+                    chk.broken.append(("precondition:incjs-wrapper", "wrapper %s of %s/%s is outside the domain of rw_tokens: %s" % (
+                        what, d["id"], sg["file"], w)))
+            chk.count("incjs:junction:" + wf[2])
+            if not wf[2].startswith("safe=1"):
+                src = bytes.fromhex(raw_m if raw_m != "-" else "")
+                chk.add_mismatch("incjs-junction", "file %s of program %s: raw segment ends %r, next segment %r" % (
+                    sg["file"], d["id"], src[-80:].decode("latin-1"), bytes.fromhex(tail_m).decode("latin-1")),
+                    wf[2], "the raw JavaScript segment must not end inside a line comment when the stripped wrapper tail follows "
+                    "(junctionSafe)", signature="C16 incjs junction unsafe")
+    return n
 
 
 def wf_fields(ans):
@@ -912,6 +1042,22 @@ def run(tier, seed):
     for j, r in zip(jobs, results):
         runs = r["runs"]
         op = j["files"]["main.go"]
+        if j["kind"] == "incjs":
+            op = json.dumps(j["files"], sort_keys=True)
+            if "plain" not in runs or "minify" not in runs:
+                raise RuntimeError("program %s did not run: %s" % (j["id"], json.dumps(runs)[:500]))
+            p, m = progs.observe_js(runs["plain"]), progs.observe_js(runs["minify"])
+            want = (j["expect"], "exit0")
+            chk.add_case("programs", op, kindkey="prog:incjs:%s" % m[1].split(":")[0],
+                         sample={"tie": "programs", "op": op[:300], "impl": str(m)[:300], "model": str(want)[:300]})
+            if p != want:
+                raise RuntimeError("generated .inc.js program %s misbehaves in the PLAIN build (generator slip): %s\n%s" % (
+                    j["id"], str(p)[:600], op[:3000]))
+            syn = node_check(runs["minify"].get("js", ""))
+            if m != want or syn:
+                chk.add_mismatch("programs", op, "minify=%s node--check=%s" % (str(m)[:600], syn[:300]), str(want)[:600],
+                                 signature="C16 plain-vs-minify kind=incjs")
+            continue
         if "plain" not in runs or "minify" not in runs or "native" not in runs:
             raise RuntimeError("program %s did not run: %s" % (j["id"], json.dumps(runs)[:500]))
         p, m, nat = progs.observe_js(runs["plain"]), progs.observe_js(runs["minify"]), progs.observe_native(runs["native"])
@@ -935,6 +1081,7 @@ def run(tier, seed):
     chk.extra["programs_js_differs_from_native_but_plain_eq_minify"] = pv_native
 
     # ---- (a) removeWhitespace -------------------------------------------------------------------------------
+    chk.extra["incjs_files_checked"] = check_incjs_segments(chk, [j for j in jobs if j["kind"] == "incjs"])
     dres = C.run_gvh(["decls"], [json.dumps({"id": j["id"], "files": j["files"]}) for j in jobs if j["kind"] != "witness"],
                      name="gvh_c16")
     if dres.returncode != 0:
@@ -1030,6 +1177,16 @@ def replay(path):
                 print("%s\n  impl : %s\n  tokens/significant preserved: %s" % (op[:300], impl[0][:300], same))
                 bad += same != "tok=1 sig=1"
         else:
+            if op.startswith("file "):
+                print(op, "\n  ", m.get("impl"))
+                bad += 1
+                continue
+            if op.startswith("{"):
+                r = progs.run_jobs([{"id": "replay", "files": json.loads(op), "variants": ["plain", "minify"], "native": False}])[0]
+                p, mi = progs.observe_js(r["runs"]["plain"]), progs.observe_js(r["runs"]["minify"])
+                print("plain : %s\nminify: %s" % (p, mi))
+                bad += p != mi
+                continue
             r = progs.run_jobs([{"id": "replay", "files": {"main.go": op}, "variants": ["plain", "minify"], "native": True}])[0]
             p, mi, nat = progs.observe_js(r["runs"]["plain"]), progs.observe_js(r["runs"]["minify"]), progs.observe_native(r["runs"]["native"])
             print("plain : %s\nminify: %s\nnative: %s" % (p, mi, nat))
